@@ -11,6 +11,53 @@ LEVEL_NOTE = ("Trusted: Lean 4.33 kernel; axioms propext/Classical.choice/Quot.s
 
 # property id -> (claim text, technique, design ref)
 CLAIMED = {
+    "C01": ("All sentences are Lean theorems over the reals about the executable battery model (load/unload/"
+            "get_available_power/_adjust_soc transliterated branch by branch, arbitrary EPS > 0): every request returns "
+            "without exception (incl. zero power at the current SoC), SoC bounds in both directions, 0 <= avg <= limit "
+            "(+ the code's own EPS slack), avg*T = dSoC*c/eta resp. *eta, reported delta = actual change, "
+            "get_available_power leaves the state unchanged. The same definitions run on IEEE doubles in the driver and "
+            "are bit-identical with the real Battery (built through components.Vehicle/StationaryBattery) on 43 k calls per "
+            "quick run; a tolerance-aware oracle states the clauses on the implementation's outputs. Float rounding is "
+            "outside the theorems (findings B13/B14 document where it bites).",
+            "Lean 4 proof over the reals (induction over curve sections, exp inequalities) + bit-level Float differential correspondence",
+            "DESIGN.md §4 C01"),
+    "C02": ("Per-section closed form satisfies the ODE (HasDerivAt), reaches the section boundary at the computed time, "
+            "more time never transfers less (whole calls), target power: avg <= P and >= P - EPS*c/(eta*T) when the target "
+            "is reached. Semigroup, eps-closeness and limit-monotonicity are proved per section only (named ..._partial: "
+            "whole-call versions hold only up to O(EPS)). Decided on the implementation by the bit-level Float "
+            "correspondence of C01 plus an independent fine-step integrator, split-vs-single calls, time/limit "
+            "monotonicity pairs and target-power delivery on real Battery objects.",
+            "Lean 4 proof (HasDerivAt, exp/log identities; partial where stated) + Float correspondence + independent ODE integrator oracle",
+            "DESIGN.md §4 C02"),
+    "C12": ("The model of costs.py (find_prices, commodity, capacity, feed-in, flexible load, calculate_costs for all seven "
+            "schemes, per-year scaling, VAT, round-half-even to cents) refines an independent reference composition "
+            "(C12_refines); tariff class and utilisation bracket, energy-linear parts, which peak each scheme charges, "
+            "VAT/feed-in, annual scaling, invariance under repeating the profile and under halving every timestep, and "
+            "date-freeness are Lean theorems over ordered fields. The real calculate_costs runs on exact rationals (price "
+            "sheet parsed exactly, duck-typed interval) and must equal the model field by field for all schemes x voltage "
+            "levels x fee types x PV brackets incl. exactly constructed boundary inputs; float, CSV and simulate.py streams "
+            "are compared with tolerance; metamorphic oracles re-run the real code on repeated/halved/re-dated profiles.",
+            "Lean 4 proof (refinement to reference spec, invariance theorems) + exact (Fraction vs Rat) differential correspondence",
+            "DESIGN.md §4 C12"),
+    "C13": ("Array invariants of distribute_energy_balanced (schedule+avail.max and schedule-avail.min invariant, avail >= "
+            "0, applied power within the individual flex bounds, hence |schedule| <= limit), the final in-band assertion, "
+            "the charge flag, the written value, and the run-length round trip of the schedule CSV through "
+            "get_schedule_from_csv and the event queue (target, window and every vehicle schedule in force at step t = row "
+            "t, signal <= start) are Lean theorems for all sizes. The flex band itself (a Strategy.step loop on the real "
+            "Battery) is captured from the real run, not modelled. Real generate_schedule runs on generated scenarios and "
+            "grid files (both sign conventions, collective and individual) are compared bit-for-bit per distribute call and "
+            "read back through the real Scenario/Events machinery.",
+            "Lean 4 proof (array invariants, run-length round trip) + Float bit-level correspondence on captured calls + read-back oracle",
+            "DESIGN.md §4 C13"),
+    "C19": ("Statistics and trip-table generators are modelled as functions of the recorded random draws / rows; "
+            "alternation of departure/arrival in strictly increasing time, consistency of announced times, consumption "
+            "range, desired SoC >= min_soc and >= buffered consumption until the next connection, purity and the while-loop "
+            "fuel are Lean theorems over ordered fields; SimBEV is modelled coarser (one theorem partial). The harness "
+            "records the draws inside the real generators, feeds them to the model and compares the whole scenario; "
+            "reproducibility is a paired real run; 'greedy never negative' is exploration on real generator + real run "
+            "(finding G2).",
+            "Lean 4 proof (induction over draws/rows) + exact differential correspondence on recorded draws + real-run exploration",
+            "DESIGN.md §4 C19"),
     "C03": ("All sentences are Lean theorems about the executable curve model over any linearly ordered field "
             "(lookup = lerp, clamped = post*min(pre*curve,L) with well-formedness and no exception, max_power, "
             "order-independence of the constructor, default discharge curve); the model is run on Rat against the "
